@@ -88,13 +88,27 @@ def run(prog: Program, L: Ledger) -> None:
     n_uses = 0
     storage_cls = prog.cls("MoveStorage")
     scope = [fi for fi in prog.iter_functions() if fi.module.name.startswith(f"{prog.package}.mc.") or fi.module.name == f"{prog.package}.utils.moves"]
-    for fi in scope:
+    from ..normalize import flat as _flat
+
+    for fi0 in scope:
+        # the normal form: private helpers inlined, generator helpers spliced into the loops that consume them
+        fi = _flat(prog, fi0, fi0.cls)
         in_storage = fi.cls is storage_cls
         storages = _storage_names(fi)
         move_names, crit_names = set(), set()
         if fi.name == "add_move":
             move_names.add("move")
             crit_names.add("criteria")
+        # parameters typed as a stored entry / a user move / a user criteria
+        for a_ in fi.node.args.args + fi.node.args.kwonlyargs:
+            ann = norm(a_.annotation) if a_.annotation is not None else ""
+            base = ann.split("[")[0].split("|")[0].strip().strip("'\"")
+            if base == "MoveStorage":
+                storages.add(a_.arg)
+            elif base in ("MoveType", "Move", "MoveProtocol") and fi.name != "add_move":
+                move_names.add(a_.arg)
+            elif base in ("CriteriaType", "Criteria", "CriteriaProtocol") and fi.name != "add_move":
+                crit_names.add(a_.arg)
         # locals bound to <storage>.move / .criteria
         for n in walk_no_nested(fi.node):
             if isinstance(n, ast.Assign) and len(n.targets) == 1 and isinstance(n.targets[0], ast.Name) and isinstance(n.value, ast.Attribute):
